@@ -198,3 +198,8 @@ mod test {
         }
     }
 }
+
+#[cfg(kani)]
+pub(crate) mod verif {
+    include!(concat!(env!("LIBP2P_VERIF"), "/hooks/kad_query_fixed.rs"));
+}
